@@ -74,7 +74,20 @@ def cmdUnlabeled : P String := do
   let y ← listOf bool
   pure (showNats (unlabeledIdx y))
 
+/-- `candmap <none | idx <k> i… | rows <k>> <y mask…>` → the mapping (`none` for feature rows) -/
+def cmdCandMap : P String := do
+  let c ← (do
+    match (← tok) with
+    | "none" => pure CandSpec.none
+    | "idx" => let l ← listOf nat; pure (CandSpec.idx l)
+    | "rows" => let k ← nat; pure (CandSpec.rows k)
+    | _ => failure : P CandSpec)
+  let y ← listOf bool
+  match transformCandidates c y with
+  | some mp => pure ("some " ++ showNats mp)
+  | Option.none => pure "none"
+
 def handlers : List (String × P String) :=
-  [ ("poolA", cmdPoolA), ("validpool", cmdValidPool), ("altrace", cmdAlTrace), ("unlabeled", cmdUnlabeled) ]
+  [ ("candmap", cmdCandMap), ("poolA", cmdPoolA), ("validpool", cmdValidPool), ("altrace", cmdAlTrace), ("unlabeled", cmdUnlabeled) ]
 
 end Ska.Drv.Pool
